@@ -16,9 +16,10 @@ class Res:
 
 
 class StubEvaluator:
-    """duck-typed evaluator: one group 'g', one metric 'tp'; the value is a function of the subject name (s<i> -> i)"""
+    """duck-typed evaluator: one group 'g', metric 'tp' whose value is a function of the subject name (s<i> -> i) and metric 'sq' that is
+    uncomputable (absent from the result dictionary -> empty cell) for every second subject"""
     segmentation_class_groups_names = ["g"]
-    resulting_metric_keys = ["tp"]
+    resulting_metric_keys = ["tp", "sq"]
 
     def __init__(self, on_eval=None):
         self.on_eval = on_eval
@@ -28,7 +29,10 @@ class StubEvaluator:
         if self.on_eval is not None:
             self.on_eval(self.current)
         v = self.current_value if getattr(self, "current_value", None) is not None else int(str(self.current)[1:])
-        return {"g": (Res({"tp": v}), None)}
+        d = {"tp": v}
+        if v % 2 == 1:
+            d["sq"] = 0.5
+        return {"g": (Res(d), None)}
 
 
 class Crash(BaseException):
@@ -136,14 +140,15 @@ def table_oracle(rows, subjects, values=None):
     heads = [i for i, r in enumerate(rows) if r and r[0] == HEADER_CELL]
     if heads != [0]:
         return "header_exactly_once_first: header rows at %s in %s" % (heads, rows)
-    if rows[0] != [HEADER_CELL, "g-tp"]:
+    if rows[0] != [HEADER_CELL, "g-tp", "g-sq"]:
         return "header_exactly_once_first: header is %s" % rows[0]
     for s in subjects:
         mine = [r for r in rows[1:] if r and r[0] == s]
         if len(mine) != 1:
             return "one_row_per_subject: subject %s has %d rows in %s" % (s, len(mine), rows)
         want = str(values[subjects.index(s)]) if values is not None else s[1:]
-        if len(mine[0]) != 2 or str(mine[0][1]) not in (want, want + ".0"):
+        wsq = "0.5" if int(want) % 2 == 1 else ""
+        if len(mine[0]) != 3 or str(mine[0][1]) not in (want, want + ".0") or mine[0][2] != wsq:
             return "rows_complete_and_equal_to_uninterrupted_run: row %s" % (mine[0],)
     extra = [r for r in rows[1:] if not r or r[0] not in subjects]
     if extra:
